@@ -242,10 +242,10 @@ class StructShim(object):
             ch = fmt[i]
             if ch.isdigit():
                 num += ch
-            elif ch in 'BHs':
+            elif ch in 'BHsp':
                 n = int(num) if num else 1
-                if ch == 's':
-                    items.append(('s', n))
+                if ch in 'sp':
+                    items.append((ch, n))
                 else:
                     for _ in range(n):
                         items.append(('h' if (ch == 'H' and native) else ch, 1))
@@ -276,6 +276,15 @@ class StructShim(object):
                 if code == 'h' and len(out) % 2:
                     out += b'\x00'
                 out += a.to_bytes(2, order)
+            elif code == 'p':                    # pascal string: length octet (clamped) + count-1 octets
+                if not isinstance(a, (bytes, bytearray)):
+                    raise cls.error("argument for 'p' must be a bytes object")
+                a = bytes(a)
+                if n == 0:
+                    continue
+                body = a[:n - 1]
+                ln = len(body)
+                out += (ln if ln < 255 else 255).to_bytes(1, 'big') + body + b'\x00' * (n - 1 - ln)
             else:
                 if not isinstance(a, (bytes, bytearray)):
                     raise cls.error("argument for 's' must be a bytes object")
@@ -294,7 +303,7 @@ class StructShim(object):
         for c, n in items:
             if c == 'B':
                 size += 1
-            elif c == 's':
+            elif c == 's' or c == 'p':
                 size += n
             else:
                 if c == 'h' and size % 2:
@@ -319,6 +328,13 @@ class StructShim(object):
                     pos += 1
                 out.append(int.from_bytes(data[pos:pos + 2], order))
                 pos += 2
+            elif code == 'p':
+                if n == 0:
+                    out.append(b'')
+                else:
+                    ln = min(data[pos], n - 1)
+                    out.append(bytes(data[pos + 1:pos + 1 + ln]))
+                pos += n
             else:
                 out.append(bytes(data[pos:pos + n]))
                 pos += n
@@ -356,14 +372,14 @@ def validate_struct_shim(fmts):
     for f in fmts:
         if f == '<dynamic>':
             raise AssertionError('struct shim: non-literal format in socks.py; extend the scan')
-        for n in (0, 1, 3, 16):
+        for n in (0, 1, 3, 16, 255, 256, 300):
             fmt = f.replace('{}', str(n)) if '{}' in f else f
             order, items = StructShim._parse(fmt)
             for variant in range(4):
                 args = []
                 for code, cnt in items:
-                    if code == 's':
-                        args.append(bytes(range(1, 1 + min(20, cnt + variant))))
+                    if code == 's' or code == 'p':
+                        args.append(bytes((k % 250) + 1 for k in range(max(0, cnt + variant - 1))))
                     else:
                         v = vals[code]
                         args.append(v[(variant * 2 + len(args)) % len(v)])
@@ -371,7 +387,11 @@ def validate_struct_shim(fmts):
                 b = StructShim.pack(fmt, *args)
                 if a != b:
                     raise AssertionError('struct shim pack mismatch for %r %r: %r != %r' % (fmt, args, a, b))
-                if real.unpack(fmt, a) != StructShim.unpack(fmt, a):
+                try:
+                    ru = real.unpack(fmt, a)
+                except SystemError:      # CPython: unpacking '0p' asks for a negative size
+                    continue
+                if ru != StructShim.unpack(fmt, a):
                     raise AssertionError('struct shim unpack mismatch for %r' % (fmt,))
             if '{}' not in f:
                 break
